@@ -840,6 +840,9 @@ class TdmsChannel(object):
             self.properties, self._group_properties, self._file_properties)
 
     def _read_channel_data_chunks(self):
+        if self.data_type is None:
+            # Channel has no data type, so there is no data to read
+            return
         for chunk in self._reader.read_raw_data_for_channel(self.path):
             _convert_channel_data_chunk(chunk, self._raw_timestamps)
             yield chunk
